@@ -235,7 +235,8 @@ let run_translated sid sch (h0 : heap) (outs0 : pval list) (root : nat option) (
        | None -> step sch h o)
     | _ -> (match rp_step sch lookup h o with Some res -> res | None -> raise Stuck)
   in
-  try Reflect_eval.run_hist_gen stepf false sch h0 outs0 root ops with Stuck -> "stuck"
+  (* (the statements about Reflect.step are evaluated on these states too: wrappers holding nil, the nil receiver) *)
+  try Reflect_eval.run_hist_gen stepf true sch h0 outs0 root ops with Stuck -> "stuck"
 
 let reflectprog_eval (fn : string) (args : string list) : string =
   match fn, args with
